@@ -395,6 +395,7 @@ pub fn spec_strategy(p: &Profile) -> BoxedStrategy<Spec> {
                     vis: "pub".to_string(),
                     items,
                     paren: ParenStyle::Full,
+        stateless: false,
                 }
             })
         })
@@ -416,6 +417,11 @@ pub fn dec_strategy(n_sets: u32, fallible: bool) -> BoxedStrategy<Dec> {
         (1, Just(Dec::ResetRet).boxed()),
         (if multi { 1 } else { 0 }, k.prop_map(Dec::ResetSwitch).boxed()),
         (if fallible { 3 } else { 0 }, (1u32..100000).prop_map(Dec::Err).boxed()),
+        // switch to a rule set and fail in the same action
+        (
+            if fallible && multi { 2 } else { 0 },
+            (0..n_sets.max(1), 1u32..100000).prop_map(|(k, n)| Dec::Err(((k + 1) << 24) | n)).boxed(),
+        ),
     ])
 }
 
@@ -676,6 +682,72 @@ pub fn duplicate_rules(spec: &mut Spec, tape: &[u32]) {
     }
 }
 
+/// Names the tail of a rule (or of its right context) that contains `$` with a top-level
+/// variable: `"//" _* ('\n' | $)` becomes `let e0 = '\n' | $; … "//" _* $e0` (the `$` stays in
+/// tail position; `$var` stands for its bound regex as a unit).
+pub fn eoi_via_var(spec: &mut Spec, tape: &[u32]) {
+    let mut t = Tape::new(tape);
+    let mut defs: Vec<(String, Re)> = vec![];
+    fn tail_mut(re: &mut Re) -> &mut Re {
+        match re {
+            Re::Cat(_, b) => tail_mut(b),
+            other => other,
+        }
+    }
+    for rule in spec.rules_mut() {
+        if defs.len() >= 3 {
+            break;
+        }
+        for which in 0..2 {
+            let target: Option<&mut Re> = if which == 0 { Some(&mut rule.re) } else { rule.ctx.as_mut() };
+            if let Some(re) = target {
+                let tail = tail_mut(re);
+                if tail.has_eoi() && !matches!(tail, Re::Var(_)) && t.next(2) == 0 {
+                    let name = format!("e{}", defs.len());
+                    let body = std::mem::replace(tail, Re::Var(name.clone()));
+                    defs.push((name, body));
+                }
+            }
+        }
+    }
+    let mut new_items: Vec<Top> = defs.into_iter().map(|(n, re)| Top::Let(n, re)).collect();
+    new_items.append(&mut spec.items);
+    spec.items = new_items;
+}
+
+/// Gives one rule the context `X | $` where `X` is the context of another rule of the definition
+/// (two contexts whose automata differ only in an end-of-input edge); half of the time the two
+/// rules also share their lexeme regex.
+pub fn ctx_eoi_twin(spec: &mut Spec, tape: &[u32]) {
+    let mut t = Tape::new(tape);
+    let mut rules = spec.rules_mut();
+    if rules.len() < 2 {
+        return;
+    }
+    let with_ctx: Vec<usize> = rules
+        .iter()
+        .enumerate()
+        .filter(|(_, r)| r.ctx.as_ref().map(|c| !c.has_eoi()).unwrap_or(false) && !r.re.has_eoi())
+        .map(|(k, _)| k)
+        .collect();
+    if with_ctx.is_empty() {
+        return;
+    }
+    let a = with_ctx[t.next(with_ctx.len() as u32) as usize];
+    let mut b = t.next(rules.len() as u32 - 1) as usize;
+    if b >= a {
+        b += 1;
+    }
+    if rules[b].re.has_eoi() {
+        return;
+    }
+    let x = rules[a].ctx.clone().unwrap();
+    rules[b].ctx = Some(alt(x, Re::Eoi));
+    if t.next(2) == 0 {
+        rules[b].re = rules[a].re.clone();
+    }
+}
+
 fn factor_in(re: &mut Re, t: &mut Tape, pct: u32, defs: &mut Vec<(String, Re)>, prefix: &str, depth: u32) {
     // `$` must stay in tail position textually, so subtrees containing it are not factored out.
     let can = !re.has_eoi() && !matches!(re, Re::Var(_));
@@ -841,7 +913,8 @@ pub fn many_piece_set(tape: &[u32], n: usize) -> Re {
         } else {
             items.push(SetItem::R(a, b));
         }
-        x += len + 2 + t.next(40);
+        // one gap in five is empty: the next piece touches this one (`'A'-'F' 'G'-'Z'`)
+        x += len + if t.next(5) == 4 { 1 } else { 2 + t.next(40) };
         if (0xD7F0..0xE010).contains(&x) {
             x = 0xE010;
         }
